@@ -252,7 +252,39 @@ def rule_cross(db, chk, cfg, rule="POLY.cross"):
         calls = [c for c in walk(f.body) if c.get("kind") == "CallExpr" and db.callee(c)[0] == "ProductsAreEqual"]
         rets = [r for r in walk(f.body) if r.get("kind") == "ReturnStmt"]
         if len(calls) != 1 or len(rets) != 1 or strip(kids(rets[0])[0]) is not calls[0]:
-            raise AnalysisBroken("POLY.cross: IsCollinear is no longer `return ProductsAreEqual(a, b, c, d)`")
+            # shortcuts in front of (or instead of) the product test: the function is interpreted on the grid {0,1,2}^6 of its six
+            # coordinates (every zero / sign pattern of the four differences occurs) with ProductsAreEqual answered exactly; any
+            # disagreement with "cross product == 0" is a concrete wrong answer
+            from ..evalx import Interp as _I, Unsupported as _U, _Return as _R
+            import itertools as _it
+            wrong = None
+            cnt = 0
+            for v in _it.product((0, 1, 2), repeat=6):
+                env = {p1 + ".x": v[0], p1 + ".y": v[1], p2 + ".x": v[2], p2 + ".y": v[3], p3 + ".x": v[4], p3 + ".y": v[5]}
+
+                def hook(name, argv, nd):
+                    if name == "ProductsAreEqual" and argv is not None and len(argv) >= 4:
+                        return argv[0] * argv[1] == argv[2] * argv[3]
+                    return NotImplemented
+                it = _I(db, env, [], call_hook=hook)
+                try:
+                    it.exec(f.body)
+                    raise AnalysisBroken("POLY.cross: IsCollinear falls off its end")
+                except _R as r:
+                    got = bool(r.v)
+                except _U as e:
+                    raise AnalysisBroken("POLY.cross: IsCollinear has shortcuts that cannot be interpreted: %s" % e)
+                exact = (v[2] - v[0]) * (v[5] - v[3]) - (v[3] - v[1]) * (v[4] - v[2]) == 0
+                cnt += 1
+                if got != exact and wrong is None:
+                    wrong = (v, got)
+            n += 1
+            chk.instance(rule, {"function": f.qual, "sig": f.sig[:50], "obligation": "with its shortcuts IsCollinear equals cross == 0 on the 729-point grid", "cfg": cfg}, ok=wrong is None)
+            if wrong is not None:
+                v, got = wrong
+                chk.violation(rule, f.qual, "shortcut|%s" % f.sig[:30], "IsCollinear((%d,%d), (%d,%d), (%d,%d)) answers %s; the cross product of (sharedPt-pt1) and (pt2-sharedPt) is %s zero: a "
+                              "shortcut in front of the product test is not equivalent to it" % (v[0], v[1], v[2], v[3], v[4], v[5], got, "not" if got else ""), f.where, cfg=cfg)
+            continue
         try:
             A, B, C, D = [pe.ev(x) for x in db.call_args(calls[0])[:4]]
         except Unsupported as e:
